@@ -303,6 +303,21 @@ Fixpoint map_res {A B} (f : A -> res B) (l : list A) : res (list B) :=
 Definition timestamp_ok (now ts : Z) : bool :=
   negb (now * 1000 + 10000 <? ts) && negb (ts <? now * 1000 - 10000).
 
+(* header["x5c"] (default []) and payload["timestampMs"] (default 0) as the verifier reads them *)
+Definition sn_x5c_txt (hj : list (pystr * json)) : res (list pystr) :=
+  match jget hj (s2l "x5c") with
+  | None => Ok []
+  | Some (JArr l) => match str_list l with Some t => Ok t | None => Err Unmodelled end
+  | Some _ => Err Unmodelled
+  end.
+Definition sn_timestamp (pj : list (pystr * json)) : res Z :=
+  match jget pj (s2l "timestampMs") with
+  | None => Ok 0
+  | Some (JInt z) => Ok z
+  | Some (JBool b) => Ok (if b then 1 else 0)
+  | Some _ => Err Unmodelled
+  end.
+
 Definition verify_safetynet (O : oracles) (now : Z) (st : att_stmt) (auth_data cdj : bytes)
     (roots builtin : list bytes) : res unit :=
   need (negb (unset (st_ver st))) ;;;
@@ -318,19 +333,10 @@ Definition verify_safetynet (O : oracles) (now : Z) (st : att_stmt) (auth_data c
           let* pj := loads_obj O pb in
           let nonce := b64std_enc (sha256 O (auth_data ++ sha256 O cdj)) in
           need (jstr_is (match jget pj (s2l "nonce") with Some v => v | None => JStr [] end) nonce) ;;;
-          let* x5c_txt := match jget hj (s2l "x5c") with
-                          | None => Ok []
-                          | Some (JArr l) => match str_list l with Some t => Ok t | None => Err Unmodelled end
-                          | Some _ => Err Unmodelled
-                          end in
+          let* x5c_txt := sn_x5c_txt hj in
           let* x5c := map_res b64url_dec x5c_txt in
           need (json_truthy (match jget pj (s2l "basicIntegrity") with Some v => v | None => JBool false end)) ;;;
-          let* ts := match jget pj (s2l "timestampMs") with
-                     | None => Ok 0
-                     | Some (JInt z) => Ok z
-                     | Some (JBool b) => Ok (if b then 1 else 0)
-                     | Some _ => Err Unmodelled
-                     end in
+          let* ts := sn_timestamp pj in
           need (timestamp_ok now ts) ;;;
           let* c := match x5c with [] => Err (Py IndexError) | d :: _ => load_cert O d end in
           match c_subject_cns c with
